@@ -133,6 +133,8 @@ void net_callback_connect(JanetFiber *fiber, JanetAsyncEvent event) {
         case JANET_ASYNC_EVENT_INIT:
 #endif
         case JANET_ASYNC_EVENT_DEINIT:
+        /* The collector asks what to mark: says nothing about the socket */
+        case JANET_ASYNC_EVENT_MARK:
             return;
         case JANET_ASYNC_EVENT_CLOSE:
             janet_cancel(fiber, janet_cstringv("stream closed"));
